@@ -676,7 +676,6 @@ PROPS = {
         "tested_not_proved": [
             "no panic / no hang of the real code on every stream (run: watchdog on every poll; ops/spec/guess: catch_unwind; cli: exit code 101 / 'panicked' / 60 s limit)",
             "verbose on/off gives the same exit code and stdout (cli stream, sequential runs)",
-            "division of the finite sum by the sample size is not covered by mean_sum_finite",
         ],
     },
     "C01": {
